@@ -16,6 +16,7 @@ def parseConds (s : String) : List Cond :=
     match t.front with
     | 'I' => some (.errIs (nat! n))
     | 'T' => some (.errType (nat! n))
+    | 'U' => some (.errType (nat! n))   -- pointer form of the same type target
     | 'R' => some (.result (int! n))
     | 'P' => some (.pred (nat! n))
     | _ => none
